@@ -303,6 +303,57 @@ def eval_exact(ctx, cases, label):
             res.sample({"case": c, "V": V, "rank": c["rank"], "common_denominator_bits": D.bit_length(),
                         "chern_marker_over_4pi_exact": [str(x) for x in exact_marker(P, fx, fy)][:4]})
     res.extra["exactK_V_histogram"] = getattr(res, "hist_rank", {})
+    if label.startswith("K("):
+        coq_crosscheck(ctx, list(zip(jobs, outs)))     # extraction cross-check: a sample of the driver's answers re-derived inside Coq
+
+
+# ------------------------------------------------------------------ extraction cross-check (DESIGN 1.3)
+def coq_crosscheck(ctx, sent):
+    """sent: (line sent to the c18 driver, its answer) for every command of the exact K phase (V <= 12).  A small random sample
+    per command is re-derived INSIDE Coq: the line is read back into Gallina literals (all integers hex, the driver's grammar)
+    and every answer line must be what vm_compute gives: gz_projb; chern_num; theta (both axes) and crosshair_num."""
+    import xcheck as X
+    quick = ctx.tier == "quick"
+    rng = np.random.default_rng([ctx.seed, 18, 99])
+    pools = {"proj": [], "chern": [], "crosshair": []}
+    for line, o in sent:
+        t = line.split()
+        if "error" not in o:
+            pools[t[0]].append((t, o))
+    quota = {"proj": 3 if quick else 20, "chern": 4 if quick else 30, "crosshair": 6 if quick else 50}
+    mat = lambda P: X.lst(lambda row: X.lst(X.zpair, row), P)
+    marker = lambda toks: "None" if toks[0] == "ERR" else "Some " + X.zlist([unhx(x) for x in toks[1:]])
+    body = []
+    g = lambda lhs, rhs: body.append(X.goal(lhs, rhs))
+    n_cases = {}
+    for kind in ("proj", "chern", "crosshair"):
+        pool = pools[kind]
+        idx = sorted(rng.choice(len(pool), size=min(len(pool), quota[kind]), replace=False).tolist()) if pool else []
+        n_cases[kind] = len(idx)
+        for i in idx:
+            t, o = pool[i]
+            c = Cursor(t[1:])
+            rd_mat = lambda: c.list(lambda: c.list(lambda: (c.z(), c.z())))
+            if kind == "proj":
+                D = c.z()
+                P = rd_mat()
+                g(f"gz_projb {X.nat(len(P))} {X.z(D)} {mat(P)}", X.boolean(o["proj"] == ["1"]))
+            else:
+                P = rd_mat()
+                xs, ys = c.list(c.z), c.list(c.z)
+                if kind == "chern":
+                    g(f"chern_num {mat(P)} {X.zlist(xs)} {X.zlist(ys)}", marker(o["marker"]))
+                else:
+                    Xc, Yc = c.z(), c.z()
+                    g(f"(map fst (theta {X.zlist(xs)} {X.z(Xc)}), map fst (theta {X.zlist(ys)} {X.z(Yc)}))",
+                      f"({X.zlist([unhx(x) for x in o['theta_x'][1:]])}, {X.zlist([unhx(x) for x in o['theta_y'][1:]])})")
+                    g(f"crosshair_num {mat(P)} {X.zlist(xs)} {X.zlist(ys)} {X.z(Xc)} {X.z(Yc)}", marker(o["marker"]))
+            if not c.done():
+                raise RuntimeError(f"extraction cross-check: could not read back the whole {kind} line")
+    res = ctx.res
+    res.extra["extraction_crosscheck_goals_vm_compute"] = X.compile_goals("c18", "Model.Marker", body, "c18")
+    res.extra["extraction_crosscheck_cases"] = n_cases
+    res.extra["extraction_crosscheck_wall_s"] = X.LAST_WALL
 
 
 # ------------------------------------------------------------------ numeric S on larger systems
